@@ -110,40 +110,37 @@ theorem lenOf_strands (s : Pil.Spec) (n : String) : lenOf (tabOf s).strands n = 
   simp only [lenOf, tabOf, Pil.Spec.findStrand, List.find?_map, Option.map_map]
   rfl
 
+/-- does the item name end in `*`? -/
+def hasStar (raw : String) : Bool := raw.toList.reverse.head? == some '*'
+
+/-- `get_seqs` on one item: look the stripped name up -/
+theorem resolveItem_eq (s : Pil.Spec) (raw : String) :
+    Pil.resolveItem s raw = match s.findSeq (stripStar raw) with
+      | some o => .ok (⟨stripStar raw, hasStar raw⟩, o)
+      | none => .error .undefinedSeq := by
+  unfold Pil.resolveItem stripStar hasStar
+  simp only []
+  generalize raw.toList.reverse = l
+  cases l with
+  | nil => rfl
+  | cons c r =>
+    by_cases hc : c = '*'
+    · subst hc; rfl
+    · have h2 : ((c :: r).head? == some '*') = false := by simpa using hc
+      rw [Pil.resolveItem.match_1.eq_2, stripStar.match_1.eq_2, h2]
+      · rfl
+      all_goals (intro r' heq; simp only [List.cons.injEq] at heq; exact hc heq.1)
+
 theorem resolveItem_strip (s : Pil.Spec) (raw : String) {x : Pil.ItemRef × Pil.SeqObj}
     (h : Pil.resolveItem s raw = .ok x) : s.findSeq (stripStar raw) = some x.2 ∧ x.1.name = stripStar raw := by
-  unfold Pil.resolveItem at h
-  unfold stripStar
-  simp only [] at h
-  split at h
-  · rename_i nm rev heq
-    split at heq
-    · rename_i r hr
-      simp only [Prod.mk.injEq] at heq
-      obtain ⟨rfl, rfl⟩ := heq
-      simp only [hr]
-      split at h
-      · rename_i o ho
-        simp only [Except.ok.injEq] at h
-        subst h
-        exact ⟨ho, rfl⟩
-      · cases h
-    · rename_i hne
-      simp only [Prod.mk.injEq] at heq
-      obtain ⟨rfl, rfl⟩ := heq
-      have : (match raw.toList.reverse with
-          | '*' :: r => String.ofList r.reverse
-          | _ => raw) = raw := by
-        split
-        · rename_i r hr; exact absurd hr (hne r)
-        · rfl
-      rw [this]
-      split at h
-      · rename_i o ho
-        simp only [Except.ok.injEq] at h
-        subst h
-        exact ⟨ho, rfl⟩
-      · cases h
+  rw [resolveItem_eq] at h
+  cases hf : s.findSeq (stripStar raw) with
+  | none => rw [hf] at h; cases h
+  | some o =>
+    rw [hf] at h
+    simp only [Except.ok.injEq] at h
+    subst h
+    exact ⟨rfl, rfl⟩
 
 theorem lensOf_resolve (s : Pil.Spec) : ∀ (items : List String) (R : List (Pil.ItemRef × Pil.SeqObj)),
     Pil.resolveItems s items = .ok R → lensOf (tabOf s).seqs (items.map stripStar) = some (R.map (fun x => x.2.len)) := by
@@ -173,7 +170,9 @@ theorem lensOf_resolve (s : Pil.Spec) : ∀ (items : List String) (R : List (Pil
 theorem segments_eq (s : List Char) : segments s = Pil.splitPlus s := by
   induction s with
   | nil => rfl
-  | cons c r ih => simp only [segments, Pil.splitPlus, ih]
+  | cons c r ih =>
+    simp only [segments, Pil.splitPlus, ih]
+    cases Pil.splitPlus r <;> rfl
 
 theorem lens_of_zip : ∀ (objs : List Pil.StrandObj) (subs : List (List Char)), subs.length = objs.length →
     (List.zip objs subs).all (fun x => x.1.len == x.2.length) = true → subs.map List.length = objs.map (·.len) := by
@@ -194,28 +193,23 @@ theorem lensOf_strands_mapM (s : Pil.Spec) : ∀ (strands : List String) (objs :
     strands.mapM (fun n => match s.findStrand n with
         | some o => (pure o : Except Pil.Err Pil.StrandObj) | none => throw Pil.Err.undefinedStrand) = .ok objs →
     lensOf (tabOf s).strands strands = some (objs.map (·.len)) := by
-  intro strands
-  induction strands with
-  | nil =>
-    intro objs h
-    simp only [List.mapM_nil, pure, Except.pure, Except.ok.injEq] at h
-    subst h; rfl
+  intro strands objs h
+  have hm := mapM_ok_inv h
+  clear h
+  induction strands generalizing objs with
+  | nil => cases objs <;> simp_all [lensOf]
   | cons n r ih =>
-    intro objs h
-    rw [List.mapM_cons] at h
-    cases hf : s.findStrand n with
-    | none => simp [hf, bind, Except.bind, throw, throwThe, MonadExceptOf.throw] at h
-    | some o =>
-      simp only [hf, bind, Except.bind, pure, Except.pure] at h
-      cases hr : List.mapM (m := Except Pil.Err) (fun n => match s.findStrand n with
-          | some o => (Except.ok o : Except Pil.Err Pil.StrandObj) | none => throw Pil.Err.undefinedStrand) r with
-      | error e => simp only [pure, Except.pure] at hr; rw [hr] at h; cases h
-      | ok os =>
-        simp only [pure, Except.pure] at hr
-        rw [hr] at h
-        simp only [Except.ok.injEq] at h
-        subst h
-        simp only [lensOf, lenOf_strands, hf, Option.map_some, ih os hr, List.map_cons]
+    cases objs with
+    | nil => simp at hm
+    | cons o os =>
+      simp only [List.map_cons, List.cons.injEq] at hm
+      obtain ⟨h1, h2⟩ := hm
+      cases hf : s.findStrand n with
+      | none => simp [hf, throw, throwThe, MonadExceptOf.throw] at h1
+      | some o' =>
+        simp only [hf, pure, Except.pure, Except.ok.injEq] at h1
+        subst h1
+        simp only [lensOf, lenOf_strands, hf, Option.map_some, ih os h2, List.map_cons]
 
 theorem contains_structs (s : Pil.Spec) (n : String) :
     (tabOf s).structs.contains n = (s.structs.find? (·.name == n)).isSome := by
@@ -230,6 +224,8 @@ theorem contains_structs (s : Pil.Spec) (n : String) :
       have h2 : (n == o.name) = false := by simpa using fun e => h e.symm
       simp only [h1, h2, Bool.false_or]
       exact ih
+
+theorem of_not_not {b : Bool} (h : ¬ (!b) = true) : b = true := by cases b <;> simp_all
 
 /-- one statement: if `Spec.add` accepts it (and, for a structure, its text is balanced), the check accepts it and the
     tables stay in step -/
@@ -310,7 +306,7 @@ theorem step_of_add (tbl : CodeTable) (s s' : Pil.Spec) (st : Pil.Stmt)
                   exact lens_of_zip objs _ (by simpa using hcount) (by simpa using hzip)
                 have hok : structOk x (objs.map (·.len)) = true := by
                   simp only [structOk, Bool.and_eq_true, beq_iff_eq]
-                  exact ⟨⟨by simpa using hchars, hbal _ _ _ _ rfl⟩, hseg⟩
+                  exact ⟨⟨of_not_not hchars, hbal _ _ _ _ rfl⟩, hseg⟩
                 simp only [step, hc, Bool.false_eq_true, if_false, hl, hok, if_true]
                 simp [tabOf]
   | equal items =>
@@ -332,8 +328,9 @@ theorem step_of_add (tbl : CodeTable) (s s' : Pil.Spec) (st : Pil.Stmt)
           subst h
           simp only [step, lensOf_resolve s items _ hr, List.map_cons]
           have : (ys.map (fun x => x.2.len)).all (· == o.len) = true := by
-            simp only [Bool.not_eq_true, Bool.not_eq_false, List.all_cons, Bool.and_eq_true] at hall
-            simp only [List.all_map, List.all_eq_true] at hall ⊢
+            have hall := of_not_not hall
+            simp only [List.all_cons, Bool.and_eq_true, List.all_eq_true] at hall
+            simp only [List.all_map, List.all_eq_true]
             intro z hz
             exact hall.2 z hz
           simp only [this, if_true]
@@ -371,6 +368,22 @@ theorem wellFormed_of_load (tbl : CodeTable) (stmts : List Pil.Stmt) (spec : Pil
   check_of_load tbl stmts {} spec hbal h
 
 /-! ### component states -/
+
+/-- with a declared length the resolved length is the declared one -/
+theorem resolve_some_len {parts : List (Constraint.Mult × Char)} {L n : Nat} {c : List Char}
+    (h : Constraint.resolve parts (some L) = .ok (n, c)) : n = L := by
+  unfold Constraint.resolve at h
+  split at h
+  · cases h
+  · split at h
+    · simp only at h
+      split at h
+      · simp only [Except.ok.injEq, Prod.mk.injEq] at h; exact h.1.symm
+      · cases h
+    · simp only at h
+      split at h
+      · cases h
+      · simp only [Except.ok.injEq, Prod.mk.injEq] at h; exact h.1.symm
 
 /-- a code table in which exactly the letters of `cs` are codes -/
 def tableOf (cs : List Char) : CodeTable := ⟨cs.map (fun c => (c, [])), [], []⟩
